@@ -423,6 +423,23 @@ func propClosure(c harness.Case) harness.Result {
 					}
 				}
 			}
+			// a label node's normalized form is the normalization of the text
+			// its children select from Source (Source has U+FFFD where the input
+			// had NUL; container prefixes between the lines are in no child)
+			if i := n.Inline(); i != nil && i.Kind() == cm.LinkLabelKind && res.Err == nil {
+				var sb strings.Builder
+				for k := 0; k < i.ChildCount(); k++ {
+					ch := i.Child(k)
+					if ch.Kind() == cm.IndentKind {
+						sb.WriteString(strings.Repeat(" ", ch.IndentWidth()))
+					} else if sp := ch.Span(); sp.Start >= 0 && sp.End >= sp.Start && sp.End <= len(b.Source) {
+						sb.Write(b.Source[sp.Start:sp.End])
+					}
+				}
+				if want := trustedNorm(sb.String()); utf8.ValidString(sb.String()) && i.LinkReference() != want {
+					res.Err = fmt.Errorf("label node with text %q has LinkReference() %q, the normalized form of its text is %q", sb.String(), i.LinkReference(), want)
+				}
+			}
 			for k := 0; k < n.ChildCount(); k++ {
 				walk(n.Child(k))
 			}
